@@ -5,6 +5,8 @@ Domain   1-3 tracked files in a root history or a nested child history; 1-6 gene
          generations; nested histories begun before or after the outer history recorded their
          files.  Enumerated completely: all ordered pairs of format subsets on one untouched file
          (quick: subsets of size <= 2, 441 pairs; thorough: all 63 x 63 = 3969 pairs).
+         Later additions: files that appear in later generations, file names with a backslash / leading dots, a file of
+         1 MiB + 4099 bytes, -sf paths typed relatively and in non-normalised forms.
 Oracle   a ledger model kept by the harness (first digest per file and format, from hashlib/xxhash on the bytes
          the harness wrote) predicts for every new generation, read with the independent XML reader: the action
          of every entry (original only in the first recording generation; verified iff equal to the earliest
